@@ -349,3 +349,71 @@ Print Assumptions C05_vol_cycles_keep_capacity.
 Print Assumptions C05_vol_formatted_is_empty.
 Print Assumptions C05_vol_format_session_remove_decodes.
 Print Assumptions C05_vol_format_cycles_keep_capacity.
+
+(* ================================================================ a chain-backed directory that GROWS, on whole images
+   (Model/VolChainGrow.v vol_create_file_grow; Proofs/VolChainGrowProofs.v; FAT12/16, a directory referenced from the fixed root).
+   EVERY outcome of dir.create_file(name): the chain afterwards is the old one plus clusters [news] that were FFree for the
+   independent decoder and are allocated now; every other FAT entry is free exactly if it was; count_free dropped by exactly
+   length news (nothing is allocated on the side, nothing leaks on the failure path - a cluster taken before a later allocation
+   fails stays in the directory's chain); the FS-info latch is consistent with the new table.  And the out-of-space clause: behind
+   a passed existence check NotEnoughSpace is answered only when NO cluster is free (find_free_entries never refuses a chain
+   directory: C05_chain_directory_never_refused; the refusal comes from the allocator alone: C05_alloc_accounting). *)
+From FatVerif Require Import Spec.Abs Model.VolChainDir Model.VolChainGrow Proofs.VolDirProofs Proofs.VolFileProofs Proofs.VolChainDirProofs
+  Proofs.VolChainGrowProofs Proofs.VolChainGrowExamples.
+Theorem C05_volchain_grow_accounting : forall fold upper oem im fi l name now r im' fi' l' ra ed children labels rb,
+  let g := parse_geom im in
+  fixed_root_geom g /\ g_cluster_size g mod 32 = 0 -> FatProofs.bytes_ok im ->
+  fi_inv fstore (val_ft (ft_of g)) (store_of g im) fi (g_clusters g) ->
+  Wf.wf_issues fold im = [] -> v_root (abs im) = ra ++ NDir ed (Some l) children [] labels :: rb ->
+  N.of_nat (cluster_slots g * length l) < 134217728 -> TimeProofs.datetime_valid now = true ->
+  vol_create_file_grow upper oem im fi l name now = (r, (im', fi', l')) ->
+  exists news,
+    l' = l ++ news /\ NoDup news /\
+    (forall x, In x news -> 2 <= x < g_clusters g + 2 /\ fat_val g im x = FFree /\ fat_val g im' x <> FFree) /\
+    (forall x, 2 <= x < g_clusters g + 2 -> ~ In x news -> (fat_val g im' x = FFree <-> fat_val g im x = FFree)) /\
+    Abs.count_free g im' + N.of_nat (length news) = Abs.count_free g im /\
+    fi_inv fstore (val_ft (ft_of g)) (store_of g im') fi' (g_clusters g) /\
+    (news = [] -> fi' = fi) /\
+    (forall a, check_for_existence upper oem (chain_dir_slots g im l) name (Some false) = Ok (Fresh a) -> r = Err ENotEnoughSpace ->
+       Abs.count_free g im' = 0).
+Proof.
+  intros fold upper oem im fi l name now r im' fi' l' ra ed children labels rb g Hg Hb Hfi Hwf Hroot Hsm Hnow H.
+  destruct (vol_grow_accounting upper oem fold im fi l name now r im' fi' l' ra ed children labels rb Hg Hb Hfi Hwf Hroot Hsm Hnow H)
+    as (news & A1 & A2 & A3 & A4 & A5 & _ & A7 & A8 & A9 & _).
+  exists news. repeat (split; [assumption|]). exact A9.
+Qed.
+(* both cases on the 64-sector volume: growth by one cluster (59 -> 58 free, hint 4 afterwards); no cluster free: NotEnoughSpace,
+   still 0 free, latch untouched *)
+Example C05_volchain_grow_accounting_ex :
+  (match vol_create_file_grow Name.upper_ascii Name.oem_decode_lossy ex_sub_im ex_fi0 [2] ex_long_name VolDirFormat.ex_vol_now with
+   | (r, (im', fi', l')) => r = Ok (Some (2, 19)) /\ l' = [2; 3] /\ fi_next fi' = Some 4 /\
+                            Abs.count_free (parse_geom ex_sub_im) ex_sub_im = 59 /\ Abs.count_free (parse_geom ex_sub_im) im' = 58
+   end) /\
+  (match vol_create_file_grow Name.upper_ascii Name.oem_decode_lossy ex_full_im ex_fi0 [2] ex_long_name VolDirFormat.ex_vol_now with
+   | (r, (im', fi', l')) => r = Err ENotEnoughSpace /\ l' = [2] /\ fi' = ex_fi0 /\
+                            Abs.count_free (parse_geom ex_full_im) ex_full_im = 0 /\ Abs.count_free (parse_geom ex_full_im) im' = 0
+   end).
+Proof. split; vm_compute; repeat split. Qed.
+
+Print Assumptions C05_volchain_grow_accounting.
+
+(* ---- "a create that fails does not consume a cluster" is FALSE of the faithful model (and of the library: replayed through the
+   executor, see the report) when the run needs TWO new clusters and exactly ONE is free: the first allocation succeeds - cluster
+   zeroed, linked, 16 long-name slots written into it -, the second one fails, create_file answers NotEnoughSpace and the
+   directory KEEPS the new cluster (the only one that was free), holding nothing but an orphan run.  The witness on the 64-sector
+   volume (Proofs/VolChainGrowExamples.v ex_part_im: D with 14 of 16 slots in use, clusters 4 .. 61 owned by F, cluster 3 free; a
+   255-character name = 21 slots): every premise of C05_volchain_grow_accounting holds; NotEnoughSpace; chain [2] -> [2; 3];
+   count_free 1 -> 0; the one finding of Spec/Wf.v: OrphanLfn(D, 32).  (No cluster is LOST: it belongs to the directory's chain.) *)
+Theorem C05_volchain_grow_nospace_keeps_count_refuted :
+  exists im fi l name now im' fi' l',
+    (fixed_root_geom (parse_geom im) /\ g_cluster_size (parse_geom im) mod 32 = 0) /\ FatProofs.bytes_ok im /\
+    fi_inv fstore (val_ft (ft_of (parse_geom im))) (store_of (parse_geom im) im) fi (g_clusters (parse_geom im)) /\
+    Wf.wf_issues (fun x => x) im = [] /\ N.of_nat (cluster_slots (parse_geom im) * length l) < 134217728 /\
+    TimeProofs.datetime_valid now = true /\
+    (exists ra ed children labels rb, v_root (abs im) = ra ++ NDir ed (Some l) children [] labels :: rb) /\
+    vol_create_file_grow Name.upper_ascii Name.oem_decode_lossy im fi l name now = (Err ENotEnoughSpace, (im', fi', l')) /\
+    Abs.count_free (parse_geom im) im = 1 /\ Abs.count_free (parse_geom im) im' = 0 /\ l' = l ++ [3] /\
+    Wf.wf_issues (fun x => x) im' = [Wf.WOrphanLfn 2 32].
+Proof. exact grow_nospace_keeps_count_refuted. Qed.
+
+Print Assumptions C05_volchain_grow_nospace_keeps_count_refuted.
